@@ -323,6 +323,29 @@ class BuiltinMixin:
     def bi_tuple(self, args, kwargs, st, node):
         return self.bi_list(args, kwargs, st, node)
 
+    def _any_all(self, args, st, is_any):
+        (xs,) = args
+        if isinstance(xs.extra, tuple) and xs.extra[0] == "listcomp":
+            xs = self.materialize_comp(xs, st)
+        xs = self.reify(xs) if isinstance(xs.t, TConst) else xs
+        if not isinstance(xs.t, TList):
+            raise EngineError(f"any/all of {xs.t!r}")
+        if xs.t.elem is None:
+            return mk_const(not is_any)
+        i = z3.Int(sym.fresh_name("q.anyall"))
+        n = self.seq_len(xs.z)
+        el = self.truthy(SV(xs.t.elem, self.seq_nth(xs.z, i)))
+        rng = z3.And(i >= 0, i < n)
+        if is_any:
+            return SV(BOOL, z3.Exists([i], z3.And(rng, el)))
+        return SV(BOOL, z3.ForAll([i], z3.Implies(rng, el)))
+
+    def bi_any(self, args, kwargs, st, node):
+        return self._any_all(args, st, True)
+
+    def bi_all(self, args, kwargs, st, node):
+        return self._any_all(args, st, False)
+
     def bi_getattr(self, args, kwargs, st, node):
         """getattr(obj, "name"[, default]) with a literal name of a DECLARED field or method of obj's class:
         the attribute then always exists, so the default is never used."""
@@ -552,6 +575,14 @@ class BuiltinMixin:
         key = "spec.Replace_" + "_".join(str(ord(c)) for c in args[0].const.v) + "__" + "_".join(str(ord(c)) for c in args[1].const.v)
         f = z3.Function(key, sym.IntSeq, sym.IntSeq)
         return SV(recv.t, f(recv.z))
+
+    def sm_splitlines(self, recv, args, kwargs, st, node):
+        """s.splitlines(): uninterpreted (the same symbol as an abstract @spec SplitLines); nothing about WHERE lines end
+        is assumed, so what is proved holds for any notion of line boundary."""
+        if args or kwargs:
+            raise EngineError("splitlines(keepends) is not modelled")
+        f = z3.Function("spec.SplitLines", sym.IntSeq, z3.SeqSort(sym.IntSeq))
+        return SV(TList(recv.t), f(recv.z))
 
     def sm_split(self, recv, args, kwargs, st, node):
         sep = args[0] if args else mk_const(None)
